@@ -110,6 +110,36 @@ Proof.
   unfold jm in Hf. rewrite (jm_below m s rs k i h I Hi Hf) in Ho. discriminate.
 Qed.
 
+(* a successful activation: the key enters at every old member, and at the joiner unless the
+   activating member does not know it yet *)
+Lemma Inv_add m s k sel jm' :
+  Inv m s -> (forall i, i < m -> omaps s i k = None) -> jmap s k = None ->
+  (jm' = aadd k sel (jmap s) \/ (jm' = jmap s /\ exists r, r < m /\ memb r (told s) = false)) ->
+  Inv m {| told := told s; jtold := jtold s;
+           omaps := fun i => if Nat.ltb i m then aadd k sel (omaps s i) else omaps s i; jmap := jm' |}.
+Proof.
+  intros I Hnone Hjn Hjm. constructor; cbn.
+  - intros i i' x Hi Hi'. apply Nat.ltb_lt in Hi as Hb. apply Nat.ltb_lt in Hi' as Hb'. rewrite Hb, Hb'.
+    unfold aadd. destruct (Nat.eqb x k) eqn:E.
+    + rewrite (Hnone i Hi), (Hnone i' Hi'). reflexivity.
+    + apply (inv_olds m s I); assumption.
+  - intros x h Hj i Hi. apply Nat.ltb_lt in Hi as Hb. rewrite Hb. unfold aadd.
+    destruct Hjm as [->|[-> _]].
+    + unfold aadd in Hj. destruct (Nat.eqb x k) eqn:E.
+      * rewrite Hjn in Hj. rewrite (Hnone i Hi). exact Hj.
+      * apply (inv_j m s I x h Hj i Hi).
+    + destruct (Nat.eqb x k) eqn:E.
+      * apply Nat.eqb_eq in E. subst x. rewrite Hjn in Hj. discriminate.
+      * apply (inv_j m s I x h Hj i Hi).
+  - intros Hall i x Hi. apply Nat.ltb_lt in Hi as Hb. rewrite Hb.
+    destruct Hjm as [->|[-> (r & Hr & Hnt)]].
+    + unfold aadd. destruct (Nat.eqb x k) eqn:E.
+      * rewrite (Hnone i Hi), Hjn. reflexivity.
+      * apply (inv_all m s I Hall i x Hi).
+    + rewrite (Hall r Hr) in Hnt. discriminate.
+  - apply (inv_told m s I).
+Qed.
+
 Lemma Inv_step m s o : Inv m s -> Inv m (fst (step m s o)).
 Proof.
   intros I. destruct o as [rs j|who k sel].
@@ -127,31 +157,26 @@ Proof.
     + intros r Hr. cbn in Hr. apply in_app_or in Hr. destruct Hr as [Hr|Hr]; [apply (inv_told m s I r Hr)|].
       apply (fresh_told_lt m s rs r Hr).
   - (* Act *)
-    cbn. destruct (Nat.ltb who m) eqn:Hw; cbn; [|exact I]. apply Nat.ltb_lt in Hw.
-    destruct (omaps s who k) as [h0|] eqn:Hk; [exact I|].
-    destruct (Nat.ltb sel m) eqn:Hs; cbn; [|exact I].
-    assert (Hnone : forall i, i < m -> omaps s i k = None).
-    { intros i Hi. rewrite (inv_olds m s I i who k Hi Hw). exact Hk. }
-    assert (Hjn : jmap s k = None).
-    { destruct (jmap s k) as [h|] eqn:Hj; [|reflexivity]. rewrite (inv_j m s I k h Hj who Hw) in Hk. discriminate. }
-    constructor; cbn.
-    + intros i i' x Hi Hi'. apply Nat.ltb_lt in Hi as Hb. apply Nat.ltb_lt in Hi' as Hb'. rewrite Hb, Hb'.
-      unfold aadd. destruct (Nat.eqb x k) eqn:E.
-      * rewrite (Hnone i Hi), (Hnone i' Hi'). reflexivity.
-      * apply (inv_olds m s I); assumption.
-    + intros x h Hj i Hi. apply Nat.ltb_lt in Hi as Hb. rewrite Hb. unfold aadd.
-      destruct (memb who (told s)) eqn:Ht.
-      * unfold aadd in Hj. destruct (Nat.eqb x k) eqn:E.
-        -- rewrite Hjn in Hj. rewrite (Hnone i Hi). exact Hj.
-        -- apply (inv_j m s I x h Hj i Hi).
-      * destruct (Nat.eqb x k) eqn:E.
-        -- apply Nat.eqb_eq in E. subst x. rewrite Hjn in Hj. discriminate.
-        -- apply (inv_j m s I x h Hj i Hi).
-    + intros Hall i x Hi. apply Nat.ltb_lt in Hi as Hb. rewrite Hb. rewrite (Hall who Hw).
-      unfold aadd. destruct (Nat.eqb x k) eqn:E.
-      * rewrite (Hnone i Hi), Hjn. reflexivity.
-      * apply (inv_all m s I Hall i x Hi).
-    + apply (inv_told m s I).
+    unfold step, step_gen. cbn [andb].
+    destruct (Nat.ltb who m) eqn:Hw.
+    + apply Nat.ltb_lt in Hw.
+      destruct (omaps s who k) as [h0|] eqn:Hk; [exact I|].
+      destruct (Nat.ltb sel m) eqn:Hs; cbn [negb]; [|exact I].
+      destruct (is_some (omaps s sel k)); [exact I|]. cbn [fst].
+      assert (Hnone : forall i, i < m -> omaps s i k = None).
+      { intros i Hi. rewrite (inv_olds m s I i who k Hi Hw). exact Hk. }
+      assert (Hjn : jmap s k = None).
+      { destruct (jmap s k) as [h|] eqn:Hj; [|reflexivity]. rewrite (inv_j m s I k h Hj who Hw) in Hk. discriminate. }
+      apply Inv_add; try assumption.
+      destruct (memb who (told s)) eqn:Ht; [left; reflexivity|right]. split; [reflexivity|]. exists who. auto.
+    + destruct (Nat.eqb who m) eqn:Hwm; [|exact I].
+      destruct (jmap s k) as [h0|] eqn:Hjn; [exact I|].
+      destruct (negb (jtold s)); [exact I|].
+      destruct (Nat.ltb sel m) eqn:Hs; cbn [negb]; [|exact I]. apply Nat.ltb_lt in Hs.
+      destruct (omaps s sel k) as [h1|] eqn:Hsel; cbn [is_some]; [exact I|]. cbn [fst].
+      assert (Hnone : forall i, i < m -> omaps s i k = None).
+      { intros i Hi. rewrite (inv_olds m s I i sel k Hi Hs). exact Hsel. }
+      apply Inv_add; try assumption. left; reflexivity.
 Qed.
 
 (* entries never change, members once told stay told *)
@@ -160,9 +185,16 @@ Lemma step_mono m s o i k h :
 Proof.
   intros I Hi H. destruct o as [rs j|who x sel].
   - rewrite step_omaps_tell by assumption. exact H.
-  - cbn. destruct (Nat.ltb who m); cbn; [|exact H]. destruct (omaps s who x); [exact H|].
-    destruct (Nat.ltb sel m); cbn; [|exact H]. apply Nat.ltb_lt in Hi as Hb. rewrite Hb.
-    unfold aadd. destruct (Nat.eqb k x) eqn:E; [|exact H]. apply Nat.eqb_eq in E. subst x. rewrite H. reflexivity.
+  - assert (Hadd : (if Nat.ltb i m then aadd x sel (omaps s i) else omaps s i) k = Some h).
+    { apply Nat.ltb_lt in Hi as Hb. rewrite Hb. unfold aadd. destruct (Nat.eqb k x) eqn:E; [|exact H].
+      apply Nat.eqb_eq in E. subst x. rewrite H. reflexivity. }
+    unfold step, step_gen. cbn [andb].
+    destruct (Nat.ltb who m).
+    + destruct (omaps s who x); [exact H|]. destruct (Nat.ltb sel m); cbn [negb]; [|exact H].
+      destruct (is_some (omaps s sel x)); [exact H|]. exact Hadd.
+    + destruct (Nat.eqb who m); [|exact H]. destruct (jmap s x); [exact H|].
+      destruct (jtold s); cbn [negb]; [|exact H]. destruct (Nat.ltb sel m); cbn [negb]; [|exact H].
+      destruct (is_some (omaps s sel x)); [exact H|]. exact Hadd.
 Qed.
 
 Lemma run_Inv m ops s : Inv m s -> Inv m (fst (run m s ops)).
@@ -186,10 +218,20 @@ Lemma act_enters m s who k sel h i :
   Inv m s -> snd (step m s (Act who k sel)) = RPid h -> i < m ->
   omaps (fst (step m s (Act who k sel))) i k = Some h.
 Proof.
-  intros I. cbn. destruct (Nat.ltb who m) eqn:Hw; cbn; [|discriminate]. apply Nat.ltb_lt in Hw.
-  destruct (omaps s who k) eqn:Hk; [discriminate|].
-  destruct (Nat.ltb sel m); cbn; [|discriminate]. intros [= <-] Hi. apply Nat.ltb_lt in Hi as Hb. rewrite Hb.
-  unfold aadd. rewrite Nat.eqb_refl. rewrite (inv_olds m s I i who k Hi Hw), Hk. reflexivity.
+  intros I. unfold step, step_gen. cbn [andb].
+  destruct (Nat.ltb who m) eqn:Hw.
+  - apply Nat.ltb_lt in Hw.
+    destruct (omaps s who k) eqn:Hk; [discriminate|].
+    destruct (Nat.ltb sel m); cbn [negb]; [|discriminate].
+    destruct (is_some (omaps s sel k)); [discriminate|]. cbn [fst snd].
+    intros [= <-] Hi. apply Nat.ltb_lt in Hi as Hb. cbn [omaps]. rewrite Hb.
+    unfold aadd. rewrite Nat.eqb_refl. rewrite (inv_olds m s I i who k Hi Hw), Hk. reflexivity.
+  - destruct (Nat.eqb who m); [|discriminate]. destruct (jmap s k); [discriminate|].
+    destruct (jtold s); cbn [negb]; [|discriminate].
+    destruct (Nat.ltb sel m) eqn:Hs; cbn [negb]; [|discriminate]. apply Nat.ltb_lt in Hs.
+    destruct (omaps s sel k) eqn:Hsel; cbn [is_some]; [discriminate|]. cbn [fst snd].
+    intros [= <-] Hi. apply Nat.ltb_lt in Hi as Hb. cbn [omaps]. rewrite Hb.
+    unfold aadd. rewrite Nat.eqb_refl. rewrite (inv_olds m s I i sel k Hi Hs), Hsel. reflexivity.
 Qed.
 
 (* the theorem, from any state satisfying the invariant *)
@@ -216,7 +258,11 @@ Proof.
     pose proof (run_Inv m ops s1 I1) as I2. rewrite Hrun in I2. cbn in I2.
     destruct m as [|m'].
     { (* no old member: no activation can succeed *)
-      cbn in Hs. inversion Hs. }
+      exfalso. revert Hs. unfold step, step_gen. cbn [andb Nat.ltb Nat.leb].
+      replace (Nat.ltb who 0) with false by (symmetry; apply Nat.ltb_ge; lia).
+      replace (Nat.ltb sel 0) with false by (symmetry; apply Nat.ltb_ge; lia). cbn [negb].
+      destruct (Nat.eqb who 0); [|discriminate]. destruct (jmap s k); [discriminate|].
+      destruct (jtold s); discriminate. }
     rewrite <- (inv_all (S m') s2 I2 (proj1 (all_told_spec (S m') s2) Hall) 0 k (Nat.lt_0_succ m')).
     apply Hold. lia.
   - cbn in Hn, Hr. specialize (IH s1 n I1 Hn). rewrite Hrun in IH. cbn in IH. exact (IH Hr).
@@ -283,12 +329,16 @@ Proof.
   replace x with (snd (step m s o)) by (rewrite Hs; reflexivity).
   destruct o as [rs j|who kk sel].
   - rewrite step_omaps_tell by assumption. cbn. apply He; exact Hi0.
-  - cbn. destruct (Nat.ltb who m) eqn:Hw; cbn; [|apply He; exact Hi0].
-    destruct (omaps s who kk) eqn:Hk; cbn; [apply He; exact Hi0|].
-    destruct (Nat.ltb sel m) eqn:Hsel; cbn; [|apply He; exact Hi0].
-    apply Nat.ltb_lt in Hi0 as Hb. rewrite Hb. unfold aadd.
-    destruct (Nat.eqb k0 kk); [|apply He; exact Hi0].
-    rewrite (He i0 kk Hi0). reflexivity.
+  - assert (Hadd : (if Nat.ltb i0 m then aadd kk sel (omaps s i0) else omaps s i0) k0 = aadd kk sel e k0).
+    { apply Nat.ltb_lt in Hi0 as Hb. rewrite Hb. unfold aadd.
+      destruct (Nat.eqb k0 kk); [|apply He; exact Hi0]. rewrite (He i0 kk Hi0). reflexivity. }
+    unfold step, step_gen. cbn [andb].
+    destruct (Nat.ltb who m).
+    + destruct (omaps s who kk); [apply He; exact Hi0|]. destruct (Nat.ltb sel m); cbn [negb]; [|apply He; exact Hi0].
+      destruct (is_some (omaps s sel kk)); [apply He; exact Hi0|]. exact Hadd.
+    + destruct (Nat.eqb who m); [|apply He; exact Hi0]. destruct (jmap s kk); [apply He; exact Hi0|].
+      destruct (jtold s); cbn [negb]; [|apply He; exact Hi0]. destruct (Nat.ltb sel m); cbn [negb]; [|apply He; exact Hi0].
+      destruct (is_some (omaps s sel kk)); [apply He; exact Hi0|]. exact Hadd.
 Qed.
 
 Theorem stagger_oracle_sound m nk ops :
@@ -315,3 +365,22 @@ Lemma lists_eqb_refl l : lists_eqb l l = true.
 Proof. induction l as [|x l IH]; cbn; [reflexivity|]. rewrite list_eqb_refl, IH. reflexivity. Qed.
 Theorem stagger_corr_refl m nk ops : corr (model_case m nk ops) = true.
 Proof. unfold corr, model_case. cbn. rewrite list_eqb_refl, lists_eqb_refl. reflexivity. Qed.
+
+(** ** The code before the repair D26 (no check on the asked member): a joiner whose agent has
+    been told, while the old members have not yet sent it their maps, activates an id that every
+    old member knows — the asked member spawns a second actor, Activate returns its PID, and the
+    views disagree for good. *)
+Fixpoint run_pinned (m : nat) (s : st) (ops : list op) : st * list res :=
+  match ops with
+  | [] => (s, [])
+  | o :: r => let '(s1, x) := step_gen false m s o in let '(s2, xs) := run_pinned m s1 r in (s2, x :: xs)
+  end.
+
+Example joiner_duplicate_before_D26 :
+  let ops := [Act 0 0 0; Tell [] true; Act 2 0 1; Tell [0; 1] false] in
+  snd (run_pinned 2 init ops) = [RPid 0; RNil; RPid 1; RNil] /\
+  all_told 2 (fst (run_pinned 2 init ops)) = true /\
+  views 2 1 (fst (run_pinned 2 init ops)) = [[1]; [1]; [2]] /\
+  (* the repaired code refuses, and everybody ends up with the one actor *)
+  snd (run 2 init ops) = [RPid 0; RNil; RNil; RNil] /\ views 2 1 (fst (run 2 init ops)) = [[1]; [1]; [1]].
+Proof. vm_compute. repeat split; reflexivity. Qed.
